@@ -1544,12 +1544,96 @@ class C12(Check):
         broken += self._text_correspondence(ctx, wntr, text_lines)
         return failures, broken
 
-    # filled in below (control / rule text correspondence with the Lean driver)
+    # ---------------------------------------------------------------- control / rule text: model vs implementation
     def _text_requests(self, wntr, label, sp, wn):
-        return []
+        """[(request line, what the implementation does, description)] for the Lean driver"""
+        C = wntr.network.controls
+        io_ = wntr.epanet.io
+        out = []
+        times = set()
 
-    def _text_correspondence(self, ctx, wntr, lines):
-        return []
+        def walk(c):
+            if c[0] in ("and", "or"):
+                walk(c[1]); walk(c[2])
+            elif c[0] in ("time", "clock") and float(c[2]) == int(c[2]) and c[2] >= 0:
+                times.add((c[0], int(c[2])))
+        for c in sp["controls"]:
+            walk(c["cond"])
+        for kind, t in sorted(times):
+            hms = [int(x) for x in C.ControlCondition._sec_to_hours_min_sec(t).split(":")]
+            exp = "%d:%d:%d" % tuple(hms)
+            if kind == "clock" and t < 86400:
+                ck = C.ControlCondition._sec_to_clock(t)
+                hh, ap = ck.split()
+                ch = [int(x) for x in hh.split(":")]
+                out.append(("T %d" % t, "%s %d:%d:%d %s" % (exp, ch[0], ch[1], ch[2], ap), "_sec_to_hours_min_sec / _sec_to_clock(%d)" % t))
+                out.append(("Q %d %d %d %s" % (ch[0], ch[1], ch[2], ap), str(int(C.ControlCondition._parse_value(ck))), "_parse_value(%r)" % ck))
+            else:
+                out.append(("T %d" % t, exp + " *", "_sec_to_hours_min_sec(%d)" % t))
+            txt = "%d:%02d:%02d" % tuple(hms)
+            out.append(("P %d %d %d" % tuple(hms), str(int(io_._str_time_to_sec(txt))), "_str_time_to_sec(%r)" % txt))
+        # rules: the lines WNTR writes, sorted by the model's parser, against the rule WNTR re-creates from them
+        rules = [(n, c) for n, c in wn.controls() if c.epanet_control_type is C._ControlType.rule]
+        if rules:
+            lines = []
+            for n, c in rules:
+                r = io_._EpanetRule("x", wntr.epanet.util.FlowUnits.LPS, wntr.epanet.util.MassUnits.mg)
+                r.from_if_then_else(c)
+                text = str(r)
+                lines += text.splitlines()
+            parsed = io_._EpanetRule.parse_rules_lines(lines, wntr.epanet.util.FlowUnits.LPS, wntr.epanet.util.MassUnits.mg)
+            k = 0
+            blocks = []
+            for ln in lines:
+                w = ln.split(";")[0].split()
+                if not w:
+                    continue
+                if w[0].upper() == "RULE":
+                    blocks.append([])
+                else:
+                    blocks[-1].append("priority:%d" % int(float(w[1])) if w[0].upper() == "PRIORITY" else w[0].lower())
+            if len(parsed) == len(blocks) == len(rules):
+                for (n, c), er, kws in zip(rules, parsed, blocks):
+                    ctl = er.generate_control(wn)
+                    tree = cond_tree(C, ctl._condition)
+                    cnt = [0]
+
+                    def show(t):
+                        if t[0] in ("and", "or"):
+                            l = show(t[1])
+                            return "(%s %s %s)" % (t[0], l, show(t[2]))
+                        cnt[0] += 1
+                        return str(cnt[0] - 1)
+                    out.append(("C " + " ".join(w for w in kws if w in ("if", "and", "or"))[: 10 ** 6].split(" then")[0], None, None))
+                    conj = []
+                    for w in kws:
+                        if w in ("then", "else") or w.startswith("priority"):
+                            break
+                        conj.append(w)
+                    out[-1] = ("C " + " ".join(conj), show(tree), "generate_control condition tree of rule %s" % n)
+                    out.append(("R " + " ".join(kws), "%d %d %d %d" % (len(flatten_cond(tree)), len(ctl._then_actions), len(ctl._else_actions), int(ctl._priority)),
+                                "parse_rules_lines blocks of rule %s" % n))
+            else:
+                out.append(("X", "rules=%d parsed=%d" % (len(rules), len(parsed)), "parse_rules_lines finds another number of rules"))
+        return [(a, b, "%s: %s" % (label, c)) for a, b, c in out]
+
+    def _text_correspondence(self, ctx, wntr, reqs):
+        broken = []
+        if not reqs:
+            return broken
+        uniq = list(dict.fromkeys(reqs))
+        out = vlib.lean_run("Drivers/InpDriver.lean", "\n".join(r[0] for r in uniq) + "\n")
+        if len(out) != len(uniq):
+            raise vlib.Infra("InpDriver returned %d lines for %d requests" % (len(out), len(uniq)))
+        nmis = 0
+        for (req, exp, desc), got in zip(uniq, out):
+            kind = req[:1]
+            ok = got == exp or (exp.endswith(" *") and got.startswith(exp[:-1]))
+            ctx.count("text-model-vs-impl:%s:%s" % (kind, "agree" if ok else "disagree"))
+            if not ok and nmis < 6:
+                nmis += 1
+                broken.append(Broken("correspondence", "InpDriver " + kind, "model answers %r to %r, implementation gives %r (%s)" % (got, req, exp, desc)))
+        return broken
 
     def search(self, ctx, broken):
         """a broken table proof / translator: run the directed models and a wider stream in all ten units"""
